@@ -1,3 +1,4 @@
+import Ntrip.Guards.FramingConsts
 import Ntrip.Properties.C07
 import Ntrip.Generated.Consts
 import Ntrip.Generated.Layouts
@@ -71,5 +72,8 @@ theorem display_whitelist :
     Gen.display_t1005_Message_String = some [] ∧ Gen.display_t1006_Message_String = some [] := by
   repeat' constructor
   all_goals decide
+
+/-- Tie T1 (constants): the literals of the framing model are the constants of the source. -/
+theorem tie_framing_consts : type_of% Ntrip.Guards.framing_consts := Ntrip.Guards.framing_consts
 
 end Ntrip.C07
